@@ -71,13 +71,13 @@ def gen_case(rng, i, tier):
                     elif r < 0.93:
                         parts.append(('missing-path', rng.choice(['no.such.path', 'VERIF_V0', 'VERIF_V3', 'HOME', 'PATH', 'nosuch']), None))
                     else:
-                        parts.append(('missing-env', 'VERIF_UNSET_%d' % rng.randint(0, 9), None))
+                        parts.append(('missing-env', rng.choice(['VERIF_UNSET_%d' % rng.randint(0, 9), 'verif_v0', 'Verif_V1', 'VERIF_v2', 'home', 'Path']), None))
             uses.append({'kind': kind, 'parts': parts, 'at': 'u%d' % u, 'wrap': rng.choice([0, 0, 1, 2])})
         elif kind == 'env-value':
-            name = rng.choice(list(env.keys())) if rng.random() < 0.9 else 'VERIF_UNSET_X'
+            name = rng.choice(list(env.keys())) if rng.random() < 0.9 else rng.choice(['VERIF_UNSET_X', 'verif_v0', 'Verif_V3'])
             uses.append({'kind': kind, 'name': name, 'at': 'u%d' % u, 'wrap': rng.choice([0, 0, 1, 2])})
         else:
-            name = rng.choice(list(env.keys())) if rng.random() < 0.9 else 'VERIF_UNSET_X'
+            name = rng.choice(list(env.keys())) if rng.random() < 0.9 else rng.choice(['VERIF_UNSET_X', 'verif_v0', 'Verif_V3'])
             uses.append({'kind': kind, 'name': name, 'at': 'u%d' % u, 'wrap': rng.choice([0, 0, 1, 2])})
     return {'doc': doc, 'uses': uses, 'group': group, 'repeat': repeat, 'cli': i % 61 == 0}
 
